@@ -8,8 +8,10 @@ namespace IrVerif.AtomicSave
 
 /-- **C08_crash** (every crash point, incl. mid-write and crashes while the exception handlers
 run).  For every destination, every `body` of effects that are not `os.replace`/`invalidate`
-(in particular the serial writer's effect list for *any* tensors, see `C08_crash_save`, and any
-interleaving of a parallel writer's effects), every fault assignment `f` (which effects fail, and
+/`loadSmall` (in particular the serial writer's effect list for *any* tensors, `C08_crash_serial`,
+and any interleaving of the parallel writer's `truncate`/`openW`/`seekW`/`writeW`/`closeW` effects,
+`C08_crash_writer` — after one worker fails the model leaves the block while the real workers run
+on, touching only the temporary file), every fault assignment `f` (which effects fail, and
 after how many bytes a failing write stops) and every state `st` the run visits — the file-system
 states a crash can leave behind are exactly these — the destination path holds either exactly the
 bytes it held before the save or exactly the bytes a fault-free save produces. -/
